@@ -134,6 +134,7 @@ func genC15Message(t *rapid.T) (*ScalarCase, string, string) {
 		c.Carrier = "tag"
 	}
 	key, _, _ := model.ParseItem(v.item)
+	c.T = maybeNamedDeep(t, c.T)
 	return c, key, class
 }
 
